@@ -249,6 +249,32 @@ func refValid(mode string, p PAlert, now, rt int64) bool {
 	return s <= e
 }
 
+// refReason classifies why the reference considers a posted alert invalid (histogram only).
+func refReason(mode string, p PAlert) string {
+	n := 0
+	for k, v := range kvMap(p.Labels, false) {
+		if v == "" {
+			continue
+		}
+		n++
+		if !refNameOK(mode, k) {
+			return "label-name"
+		}
+		if !utf8.ValidString(v) {
+			return "label-value"
+		}
+	}
+	if n == 0 {
+		return "no-labels"
+	}
+	for k, v := range kvMap(p.Annots, true) {
+		if !refNameOK(mode, k) || !utf8.ValidString(v) {
+			return "annotation"
+		}
+	}
+	return "end-before-start"
+}
+
 func cleanedKey(p PAlert) string {
 	ls := map[string]string{}
 	for k, v := range kvMap(p.Labels, false) {
@@ -864,6 +890,8 @@ func postOracle(c *Case, op *Op, now int64, code int, prev, cur map[string]oaler
 		if refValid(c.Mode, p, now, c.RT) {
 			nValid++
 			perKey[cleanedKey(p)]++
+		} else {
+			tags["invalid:"+refReason(c.Mode, p)]++
 		}
 	}
 	switch {
@@ -1014,10 +1042,10 @@ func TestCheck(t *testing.T) {
 	} else {
 		cases = append(cases, vh.LoadCorpus[Case](env, "C13")...)
 		r := vh.NewRand(env.Seed)
-		n := env.N(500, 10)
+		n := env.N(500, 4)
 		maxOps := 12
 		if env.Tier == "thorough" {
-			maxOps = 30
+			maxOps = 20
 		}
 		for i := 0; i < n; i++ {
 			cases = append(cases, genCase(r.Fork(), maxOps))
